@@ -2,7 +2,7 @@
    permission rules.  Statements only. *)
 From Coq Require Import List Bool Arith String.
 Open Scope string_scope.
-From PM Require Import Model.Data Model.Mark Proofs.MarkProofs.
+From PM Require Import Model.Data Model.Mark Proofs.MarkProofs Proofs.CanonicalMarks.
 Import ListNotations.
 
 (* Adding a mark: the set is returned unchanged if an equal mark is present or
@@ -52,6 +52,23 @@ Theorem C14_allows_marks_spec : forall s nt ms,
   allows_marks s nt ms = forallb (fun m => allows_mark_type s nt (m_ty m)) ms.
 Proof. exact allows_marks_spec. Qed.
 Print Assumptions C14_allows_marks_spec.
+
+(* the canonical form Node.check demands of a mark list (re-adding every mark to the empty set gives the same list)
+   is EXACTLY: sorted by rank, and no two marks of the list are equal or exclude one another (in either direction) *)
+Theorem C14_canonical_iff : forall s ms,
+  marks_canonical s ms = true <-> (sorted_rank ms /\ PairOK s ms).
+Proof. exact canonical_iff_clean. Qed.
+Print Assumptions C14_canonical_iff.
+
+(* ... and adding or removing a mark keeps a canonical set canonical *)
+Theorem C14_add_keeps_canonical : forall s m set,
+  marks_canonical s set = true -> marks_canonical s (add_to_set s m set) = true.
+Proof. exact add_to_set_canonical. Qed.
+Print Assumptions C14_add_keeps_canonical.
+Theorem C14_remove_keeps_canonical : forall s m set,
+  marks_canonical s set = true -> marks_canonical s (remove_from_set m set) = true.
+Proof. exact remove_from_set_canonical. Qed.
+Print Assumptions C14_remove_keeps_canonical.
 
 (* non-vacuity: a concrete configuration where an exclusion actually fires *)
 Example C14_example :
